@@ -91,16 +91,17 @@ NORET = object()
 
 
 class State(object):
-    __slots__ = ("env", "ret", "conds", "flow")
+    __slots__ = ("env", "ret", "conds", "flow", "facts")
 
-    def __init__(self, env, ret=NORET, conds=(), flow=None):
+    def __init__(self, env, ret=NORET, conds=(), flow=None, facts=None):
         self.env = env
         self.ret = ret
         self.conds = tuple(conds)
         self.flow = flow        # None | 'break' | 'continue'
+        self.facts = dict(facts or {})      # key of a decided symbolic condition -> bool
 
     def fork(self, cond=None):
-        return State(dict(self.env), self.ret, self.conds + ((cond,) if cond else ()), self.flow)
+        return State(dict(self.env), self.ret, self.conds + ((cond,) if cond else ()), self.flow, self.facts)
 
     @property
     def live(self):
@@ -206,7 +207,7 @@ class Interp(object):
             env[finfo.vararg] = tuple(args[len(params):])
         if finfo.kwarg:
             env[finfo.kwarg] = dict(kwargs)
-        states = self.exec_block(finfo.node.body, [State(env)], ctx)
+        states = self.exec_block(finfo.node.body, [State(env, facts=getattr(self, "_inherit_facts", None))], ctx)
         self._last_ctx = ctx
         return [s for s in states if s.ret is not RAISE]
 
@@ -275,6 +276,7 @@ class Interp(object):
         return states
 
     def exec_stmt(self, st, s, ctx):
+        ctx.facts_now = s.facts
         m = getattr(self, "st_" + type(st).__name__, None)
         if m is None:
             self.notes.append("%s: statement %s skipped" % (ctx.finfo.fq, type(st).__name__))
@@ -390,7 +392,8 @@ class Interp(object):
         if isinstance(v, (tuple, list)) and len(v) == n:
             return list(v)
         if isinstance(v, ShapeOf):
-            return [self.shape_elem(v.v, i, n) for i in range(n)]
+            # unpacking fixes the rank: name the extents by their negative index
+            return [self.shape_elem(v.v, i - n, n) for i in range(n)]
         if isinstance(v, Rat):
             return [Rat.atom(Fn("getitem", (v, Rat.const(i)))) for i in range(n)]
         return [unk("unpack", i) for i in range(n)]
@@ -402,8 +405,15 @@ class Interp(object):
         if t is False:
             return self.exec_block(st.orelse, [s], ctx)
         txt = norm_text(st.test)
+        tv = self.ev(st.test, s.env, ctx)
+        k = vkey(tv) if isinstance(tv, Rat) and not has_unknown(tv) else None
+        if k is not None and k in s.facts:
+            return self.exec_block(st.body if s.facts[k] else st.orelse, [s], ctx)
         a = s.fork(txt)
         b = s.fork("not (%s)" % txt)
+        if k is not None:
+            a.facts[k] = True
+            b.facts[k] = False
         return self.exec_block(st.body, [a], ctx) + self.exec_block(st.orelse, [b], ctx)
 
     def st_With(self, st, s, ctx):
@@ -910,7 +920,9 @@ class Interp(object):
         if isinstance(r, bool):
             r = Rat.const(int(r))
         if isinstance(op, ast.Mult) and isinstance(l, list) and isinstance(r, Rat):
-            return unk("listrep", tuple(l), r)
+            if all(isinstance(x, Rat) and x.is_zero() for x in l):
+                return Rat.const(0)         # a list of zeros of any length acts as the zero array
+            return Rat.atom(Fn("listrep", (tuple(l), r)))
         if isinstance(op, ast.Add) and isinstance(l, (list, tuple)) and isinstance(r, type(l)):
             return l + r
         if isinstance(l, str) or isinstance(r, str):
@@ -1015,7 +1027,12 @@ class Interp(object):
             pass    # numba kernels are plain python for the analysis
         sub = Interp.__new__(Interp)
         sub.__dict__ = self.__dict__        # share logs / settings
-        states = sub.run(finfo, args, kwargs, self_obj, ctx.depth + 1)
+        prev = getattr(self, "_inherit_facts", None)
+        self._inherit_facts = dict(getattr(ctx, "facts_now", None) or {})
+        try:
+            states = sub.run(finfo, args, kwargs, self_obj, ctx.depth + 1)
+        finally:
+            self._inherit_facts = prev
         cctx = sub._last_ctx
         # by-reference effects on array arguments (out-parameters)
         if call_node is not None and env is not None and cctx.mutated:
@@ -1260,7 +1277,12 @@ def _len(I, a, k, e, env, ctx):
     if a and isinstance(a[0], (list, tuple)):
         return Rat.const(len(a[0]))
     if a and isinstance(a[0], ShapeOf):
-        return Rat.atom(Fn("ndim", (a[0].v,)))
+        v = a[0].v
+        if isinstance(v, Rat):
+            car = sorted(set(x.name for x in v.atoms() if isinstance(x, Sym) and "array" in x.flags))
+            if len(car) == 1:
+                return Rat.sym("ndim(%s)" % car[0], ("int",))
+        return Rat.atom(Fn("ndim", (v,)))
     if a and isinstance(a[0], Rat):
         return Rat.atom(Fn("len", (a[0],)))
     return NotImplemented
